@@ -17,7 +17,7 @@ use oracle::rng::{mix, Rng};
 use serde_json::json;
 
 pub const ID: &str = "C11";
-pub const FAMS: [&str; 6] = ["cell", "small-random", "witness", "forced", "tiny", "crafted-extremes"];
+pub const FAMS: [&str; 7] = ["cell", "small-random", "witness", "forced", "tiny", "crafted-extremes", "cleanest-symbol-search"];
 pub const KF: &str = "KF-C11-1";
 pub const KF_WHAT: &str = "site=src/placement.rs:place_on_matrix column run/window penalty terms are taken from the transpose of the UN-masked placement (same constant for all eight candidates), so the emitted mask is not always minimal under the documented penalty";
 
@@ -106,6 +106,17 @@ pub fn jobs(ctx: &Ctx) -> Vec<Job> {
             }
         }
     }
+    // feedback-directed search for unusually CLEAN symbols (versions 1-2): the payload is hill-climbed towards the lowest
+    // ranking score the crate reports through the recorder; every improvement is a full C11 observation (eight
+    // candidates, emitted mask minimal). Shortcuts for "good enough" candidates live at the low end of the scale.
+    for i in 0..ctx.tier.pick(48usize, ctx.scale(1_000)) {
+        k += 1;
+        let v = 1 + i % 2;
+        let level = (i / 2) % 4;
+        let class = [2usize, 1, 2, 0][i % 4];
+        let len = 1 + (mix(ctx.seed ^ 0xc1ea, k) as usize) % caps.cap(v, level, class).max(1);
+        jobs.push(Job { fam: FAMS[6], class, mode: Some(class), level: Some(level), version: Some(v), mask: None, len, gen: 0, seed: mix(ctx.seed, k), ..Default::default() });
+    }
     // forced masks always override
     for v in [1usize, 5, 13, 27, 40] {
         for mask in 0..8usize {
@@ -171,7 +182,68 @@ fn candidate_via_api(base: &adapter::Config, mask: usize, version: usize) -> Res
     }
 }
 
+fn cleanest_search(ctx: &Ctx, st: &mut Stats, job: &Job, idx: usize) {
+    let mut rng = Rng::new(job.seed ^ 0xc1ea);
+    let mut payload = job.payload();
+    let span = [10usize, 45, 256][job.class];
+    let sym = |class: usize, k: usize| -> u8 {
+        match class {
+            0 => b'0' + (k % 10) as u8,
+            1 => oracle::tables::alnum_char(k % 45),
+            _ => k as u8,
+        }
+    };
+    let score_of = |p: &[u8]| -> Option<u32> {
+        let cfg = adapter::Config { input: p.to_vec(), mode: job.mode, level: job.level, version: job.version, mask: None };
+        let (out, rec) = adapter::build_recorded(&cfg);
+        match out {
+            Outcome::Ok(_) if !rec.is_empty() => rec.iter().map(|c| c.score).min(),
+            _ => None,
+        }
+    };
+    let check = |st: &mut Stats, p: &[u8]| -> bool {
+        let j = Job { fam: FAMS[1], payload: Some(p.to_vec()), ..job.clone() };
+        let before = st.violations.len();
+        observe(ctx, st, &j, idx);
+        st.violations.len() == before
+    };
+    if !check(st, &payload) {
+        return;
+    }
+    let mut best = match score_of(&payload) {
+        Some(s) => s,
+        None => return, // recorder silent (harness built without hooks): nothing to steer by
+    };
+    for _ in 0..ctx.tier.pick(400, 1200) {
+        if payload.is_empty() {
+            break;
+        }
+        let at = rng.below(payload.len());
+        let old = payload[at];
+        payload[at] = sym(job.class, rng.below(span));
+        if oracle::tables::classify(&payload) > job.class {
+            payload[at] = old;
+            continue;
+        }
+        match score_of(&payload) {
+            Some(s) if s < best => {
+                best = s;
+                st.count("cleanest_search_improvements_checked", 1);
+                if !check(st, &payload) {
+                    return;
+                }
+            }
+            Some(s) if s == best => {}
+            _ => payload[at] = old,
+        }
+    }
+    st.max("max_of_1000000_minus_lowest_ranking_score", 1_000_000u64.saturating_sub(best as u64));
+}
+
 pub fn observe(ctx: &Ctx, st: &mut Stats, job: &Job, idx: usize) {
+    if job.fam == FAMS[6] {
+        return cleanest_search(ctx, st, job, idx);
+    }
     // feedback-directed long-run jobs: phase 1 asks the crate which mask wins for the background alone
     // (the chosen lines follow NO mask: k_override = 8 is out of range of seed % 8 and selects plain noise)
     let directed;
